@@ -28,6 +28,13 @@ NEGS = [("Neg_FastLen_guess.cfg", "next_fast_len with guess N instead of 2N"),
 
 
 # ---------------------------------------------------------------- workers (forked before any thread starts)
+
+def _clear(f):
+    """drop a memo if the function has one (lru_cache is an implementation detail, not required)"""
+    cc = getattr(f, "cache_clear", None)
+    if cc is not None:
+        cc()
+
 def _fns():
     from pulsarbat.utils import next_fast_len, prev_fast_len
     return next_fast_len, prev_fast_len
@@ -38,8 +45,8 @@ def _pairs_worker(arg):
     pairs, clear = arg
     nx, pv = _fns()
     if clear:
-        nx.cache_clear()
-        pv.cache_clear()
+        _clear(nx)
+        _clear(pv)
     bad, n = [], 0
     for s, s2 in pairs:
         calls = [("next", s, s, "lattice:next-at-smooth"), ("prev", s, s, "lattice:prev-at-smooth")]
@@ -116,7 +123,7 @@ def replay_exhaustive(chk, recs, rnd):
         for fn in ("next", "prev"):
             g = f[fn]
             if clear:
-                g.cache_clear()
+                _clear(g)
             if clear is None:
                 g = getattr(g, "__wrapped__", g)
             e = exp[fn]
@@ -456,7 +463,7 @@ def replay(doc):
     if kind == "call":
         nx, pv = _fns()
         g = nx if c["fn"] == "next" else pv
-        g.cache_clear()
+        _clear(g)
         got = g(c["N"])
         print("%s_fast_len(%d) = %r, expected %d" % (c["fn"], c["N"], got, c["expected"]))
         return 0 if got == c["expected"] else 1
